@@ -4,6 +4,7 @@ Property theorems only (helper lemmas: Lemmas/Response.lean; models: Model/Heade
 Model/Response.lean; generated tables: Gen/Response.lean).
 -/
 import WzVerif.Lemmas.Response
+import WzVerif.Props.C15
 namespace Wz.Props.C05
 open Wz Hdr Resp Wz.C05L
 
@@ -417,5 +418,123 @@ theorem close_counts_after_call_on_close (r : R) (n : Nat) (e : CloseEv) :
   · have h1 : (CloseEv.cb n == e) = false := by
       rw [beq_eq_false_iff_ne]; exact fun h => he h.symm
     rw [h1, if_neg he]; simp
+
+/-! ## Location is an ASCII URI (on top of C15) -/
+
+open Wz.C16L Wz.C08L
+/-- all characters are ASCII -/
+def Ascii (s : Str) : Prop := ∀ c ∈ s, c.toNat < 128
+
+/-- the assumed laws of the opaque URL primitives: `urlsplit` yields an ASCII scheme and (after
+IDNA) an ASCII host; `urlunsplit` and `urljoin` only rearrange the characters they are given plus
+ASCII delimiters, so ASCII inputs give ASCII output -/
+structure UrlLaws (U : UrlOps) : Prop where
+  split_scheme : ∀ url, Ascii (U.split url).scheme
+  split_host : ∀ url, Ascii (U.split url).host
+  unsplit_ascii : ∀ sp : Url.Split, Ascii sp.scheme → Ascii sp.netloc → Ascii sp.path → Ascii sp.query →
+    Ascii sp.fragment → Ascii (U.unsplit sp)
+  join_ascii : ∀ a b, Ascii a → Ascii b → Ascii (U.join a b)
+
+theorem iriToUriStr_ascii (U : UrlOps) (hU : UrlLaws U) (url : Str) : Ascii (iriToUriStr U url) := by
+  obtain ⟨h1, h2, h3, h4, h5⟩ := Wz.Props.C15.iriToUri_ascii (U.split url) (hU.split_scheme url) (hU.split_host url)
+  exact hU.unsplit_ascii _ h1 h2 h3 h4 h5
+
+theorem locationOut_ascii (U : UrlOps) (hU : UrlLaws U) (ac : Bool) (cur loc : Str) :
+    Ascii (locationOut U ac cur loc) := by
+  unfold locationOut
+  cases ac with
+  | false => exact iriToUriStr_ascii U hU loc
+  | true => exact hU.join_ascii _ _ (iriToUriStr_ascii U hU cur) (iriToUriStr_ascii U hU loc)
+
+/-- **Location is an ASCII URI**: the value `get_wsgi_headers` computes for Location is ASCII for
+every Location text, every current URL and both settings of `autocorrect_location_header`; the same
+for Content-Location. (`iri_to_uri` = opaque `urlsplit`/IDNA, C15's `iriToUri`, opaque `urlunsplit`;
+with autocorrection both arguments of the opaque `urljoin` went through `iri_to_uri` first.) -/
+theorem location_ascii (U : UrlOps) (hU : UrlLaws U) (autocorrect : Bool) (currentUrl location : Str) :
+    Ascii (locationOut U autocorrect currentUrl location) ∧ Ascii (iriToUriStr U location) :=
+  ⟨locationOut_ascii U hU autocorrect currentUrl location, iriToUriStr_ascii U hU location⟩
+
+/-- non-vacuity of the assumed laws: they hold e.g. for primitives that drop everything -/
+example : UrlLaws ⟨fun url => { path := url },
+    fun sp => sp.scheme ++ sp.netloc ++ sp.path ++ sp.query ++ sp.fragment, fun a b => a ++ b⟩ where
+  split_scheme := fun _ c hc => (by cases hc)
+  split_host := fun _ c hc => (by cases hc)
+  unsplit_ascii := fun _ h1 h2 h3 h4 h5 c hc => (by
+    simp only [List.mem_append] at hc
+    rcases hc with (((h | h) | h) | h) | h
+    · exact h1 c h
+    · exact h2 c h
+    · exact h3 c h
+    · exact h4 c h
+    · exact h5 c h)
+  join_ascii := fun _ _ ha hb c hc => (by
+    rcases List.mem_append.1 hc with h | h
+    · exact ha c h
+    · exact hb c h)
+
+/-- ... and that value is what the server receives: when the response has a Location header, the
+WSGI header list carries exactly one Location entry, the converted ASCII value (all duplicates
+replaced); none otherwise. If the converted text contained CR/LF `Headers.__setitem__` would raise
+and nothing is handed to the server - hence the hypothesis. Same for Content-Location. -/
+theorem location_handed_to_server (U : UrlOps) (hU : UrlLaws U) (autocorrect : Bool) (currentUrl : Str) (r : R)
+    (hnl : hasNL (locationOut U autocorrect currentUrl
+      (((getlist r.headers "location".toList).getLast?).getD [])) = false)
+    (hnl' : hasNL (iriToUriStr U (((getlist r.headers "content-location".toList).getLast?).getD [])) = false) :
+    (∀ v ∈ getlist (getWsgiHeadersU U autocorrect currentUrl r) "location".toList, Ascii v) ∧
+    (∀ v ∈ getlist (getWsgiHeadersU U autocorrect currentUrl r) "content-location".toList, Ascii v) ∧
+    ((getlist r.headers "location".toList).isEmpty = false →
+      getlist (getWsgiHeadersU U autocorrect currentUrl r) "location".toList
+        = [locationOut U autocorrect currentUrl (((getlist r.headers "location".toList).getLast?).getD [])]) := by
+  unfold getWsgiHeadersU
+  simp only
+  generalize hlo : locationOut U autocorrect currentUrl (((getlist r.headers "location".toList).getLast?).getD []) = lo at hnl
+  generalize hco : iriToUriStr U (((getlist r.headers "content-location".toList).getLast?).getD []) = co at hnl'
+  have alo : Ascii lo := hlo ▸ locationOut_ascii U hU _ _ _
+  have aco : Ascii co := hco ▸ iriToUriStr_ascii U hU _
+  have hL := wsgi_getlist_of r lo co "location".toList (by decide) (Or.inl (by decide))
+  have hC := wsgi_getlist_of r lo co "content-location".toList (by decide) (Or.inr (Or.inr (by decide)))
+  -- Location entries after the two stores
+  have hLval : getlist (if (getlist r.headers "content-location".toList).isEmpty then
+          (if (getlist r.headers "location".toList).isEmpty then r.headers else (Hdr.set r.headers "Location".toList lo).1)
+        else (Hdr.set (if (getlist r.headers "location".toList).isEmpty then r.headers
+          else (Hdr.set r.headers "Location".toList lo).1) "Content-Location".toList co).1) "location".toList
+      = if (getlist r.headers "location".toList).isEmpty then [] else [lo] := by
+    have h1 : getlist (if (getlist r.headers "location".toList).isEmpty then r.headers
+        else (Hdr.set r.headers "Location".toList lo).1) "location".toList
+        = if (getlist r.headers "location".toList).isEmpty then [] else [lo] := by
+      cases he : (getlist r.headers "location".toList).isEmpty with
+      | true => simpa using he
+      | false => simp only [Bool.false_eq_true, if_false]; exact set_getlist' _ _ _ _ (by decide) hnl
+    split
+    · exact h1
+    · rw [set_getlist_ne _ _ _ _ (by decide)]; exact h1
+  have hCval : ∀ v ∈ getlist (if (getlist r.headers "content-location".toList).isEmpty then
+          (if (getlist r.headers "location".toList).isEmpty then r.headers else (Hdr.set r.headers "Location".toList lo).1)
+        else (Hdr.set (if (getlist r.headers "location".toList).isEmpty then r.headers
+          else (Hdr.set r.headers "Location".toList lo).1) "Content-Location".toList co).1) "content-location".toList,
+      Ascii v := by
+    cases he : (getlist r.headers "content-location".toList).isEmpty with
+    | true =>
+      simp only [if_true]
+      have : getlist (if (getlist r.headers "location".toList).isEmpty then r.headers
+          else (Hdr.set r.headers "Location".toList lo).1) "content-location".toList = [] := by
+        split
+        · simpa using he
+        · rw [set_getlist_ne _ _ _ _ (by decide)]; simpa using he
+      rw [this]; intro v hv; cases hv
+    | false =>
+      simp only [Bool.false_eq_true, if_false]
+      rw [set_getlist' _ _ _ _ (by decide) hnl']
+      intro v hv; simp at hv; subst hv; exact aco
+  refine ⟨?_, ?_, ?_⟩
+  · rw [hL, hLval]
+    intro v hv
+    split at hv
+    · cases hv
+    · simp at hv; subst hv; exact alo
+  · rw [hC]; exact hCval
+  · intro hne
+    rw [hL, hLval, hne]; rfl
+
 
 end Wz.Props.C05
